@@ -64,7 +64,7 @@ def run(res, args):
     viol, seen_known = [], set()
 
     def report(what, detail, exc=()):
-        tags = list(exc) + [what]
+        tags = sorted(exc) + [what]
         k = next((k for k in known for t in tags if k['match'].get('contains') and k['match']['contains'] in t), None)
         if k:
             seen_known.add((k['property'], k['id'], k['what']))
@@ -74,70 +74,121 @@ def run(res, args):
     # ---------- (a) encoder options
     docs = [x for _, x in xmlgen.corpus_xml()]
     g = xmlgen.XmlTableGen(d, rng)
-    xs = rng.sample(docs, 60 if quick else len(docs)) + [g.doc() for _ in range(120 if quick else 4000)]
+    xs0 = rng.sample(docs, 60 if quick else len(docs)) + [g.doc() for _ in range(120 if quick else 4000)]
     tuples = list(itertools.product([0, 1, 2, 3], [0, 1], [0, 1], [0, 1]))      # version keepws strtbl anonymous
-    lines, owner = [], []
-    for j, x in enumerate(xs):
-        for t in (tuples if not quick else rng.sample(tuples, 12)):
-            lines.append(f'X2W {t[0]} {t[1]} {t[2]} {t[3]} {x.hex()}'); owner.append((j, t))
-    impl, inc = corr.run_lines(hx2w, lines, env=env)
-    # model correspondence on a slice (the whole cross product is covered by C02/C06)
-    sl = rng.sample(range(len(lines)), min(len(lines), 600 if quick else 20000))
-    msl = xcorr.model_with_expat(drv, er, env, lambda k: ' '.join(lines[sl[k]].split(' ')[:5]), [xs[owner[i][0]] for i in sl])
-    corr_diff = [sl[k] for k in range(len(sl)) if corr.canon_err(impl[sl[k]]) != corr.canon_err(msl[k])]
-    xt, _ = corr.run_lines(hx, [f'X2T {x.hex()}' for x in xs], env=env)
-    lang_of = {}
-    for j, t in enumerate(xt):
-        try:
-            lang_of[j] = int(t[6:].split(':')[0])
-        except Exception:
-            pass
-    src_runs = xcorr.expat_runs(er, env, xs)
-    plines, pown = [], []
-    for i, (j, t) in enumerate(owner):
-        w = hexout(impl[i])
-        if w is not None and j in lang_of:
-            plines.append(f'PARSE {lang_of[j]} 0 {w.hex()}'); pown.append((i, j, t, w))
-    pev, _ = corr.run_lines(hp, plines, env=env)
-    by_doc = {}
-    for (i, j, t, w), p in zip(pown, pev):
-        by_doc.setdefault(j, []).append((t, w, p))
-    stats = {'sources': len(xs), 'encodings_decoded': len(plines), 'option_pairs_compared': 0, 'anonymous_headers_checked': 0}
-    for j, items in by_doc.items():
-        lang = langs.get(lang_of[j])
-        if lang is None:
-            continue
-        norm = docmp.Norm(d, lang)
-        exc = docmp.excuses(norm, docmp.doc_of_expat(src_runs[j])[2])
-        # acceptance may legitimately depend on the string-table option (literal names need the table)
-        # and on white-space preservation (typed content); it must not depend on version / anonymity
-        for (kw, st) in itertools.product([0, 1], [0, 1]):
-            sts = {hexout(impl[i]) is not None for i, (jj, t) in enumerate(owner) if jj == j and t[1] == kw and t[2] == st}
-            if len(sts) > 1:
-                report('the document is accepted under some version/anonymity settings and refused under others', xs[j][:300], exc)
-        for keep in (0, 1):
-            grp = [(t, w, p) for t, w, p in items if t[1] == keep]
-            if not grp:
+    stats = {'sources': 0, 'encodings_decoded': 0, 'option_pairs_compared': 0, 'anonymous_headers_checked': 0}
+    corr_diff, all_lines, all_inc, nsl = [], [], [], [0]
+
+    def embedded_only(norm, a, b):
+        """do the two event lists differ only in the character data of SyncML <Data> elements?"""
+        if not norm.syncml or len(a) != len(b):
+            return False
+        st = []
+        for x, y in zip(a, b):
+            if x[0] == 'S':
+                st.append(docmp.local(x[1]))
+            if x != y and not (x[0] == 'C' and y[0] == 'C' and st and st[-1] == b'Data'):
+                return False
+            if x[0] == 'E' and st:
+                st.pop()
+        return True
+
+    def same_xml(lid, w1, w2):
+        """the library's canonical XML (white space kept) of two WBXML documents is byte-identical"""
+        r1, _, _ = corr.isolate(hw2x, f'W2X {lid} 0 2 0 1 {w1.hex()}', env=env)
+        r2, _, _ = corr.isolate(hw2x, f'W2X {lid} 0 2 0 1 {w2.hex()}', env=env)
+        return r1 is not None and r1.startswith('R 0 ;') and r1 == r2
+
+    def enc_opts(xs, full):
+        lines, owner = [], []
+        for j, x in enumerate(xs):
+            for t in (tuples if full else rng.sample(tuples, 12)):
+                lines.append(f'X2W {t[0]} {t[1]} {t[2]} {t[3]} {x.hex()}'); owner.append((j, t))
+        impl, inc = corr.run_lines(hx2w, lines, env=env)
+        # model correspondence on a slice (the whole cross product is covered by C02/C06)
+        sl = rng.sample(range(len(lines)), min(len(lines), 600 if quick else 20000))
+        all_lines.extend(lines); all_inc.extend((lines[idx], rc, err) for idx, rc, err in inc if idx < len(lines))
+        msl = xcorr.model_with_expat(drv, er, env, lambda k: ' '.join(lines[sl[k]].split(' ')[:5]), [xs[owner[i][0]] for i in sl])
+        cd = [sl[k] for k in range(len(sl)) if corr.canon_err(impl[sl[k]]) != corr.canon_err(msl[k])]
+        corr_diff.extend(lines[i][:400] for i in cd)
+        nsl[0] += len(sl)
+        xt, _ = corr.run_lines(hx, [f'X2T {x.hex()}' for x in xs], env=env)
+        lang_of = {}
+        for j, t in enumerate(xt):
+            try:
+                lang_of[j] = int(t[6:].split(':')[0])
+            except Exception:
+                pass
+        src_runs = xcorr.expat_runs(er, env, xs)
+        plines, pown = [], []
+        for i, (j, t) in enumerate(owner):
+            w = hexout(impl[i])
+            if w is not None and j in lang_of:
+                plines.append(f'PARSE {lang_of[j]} 0 {w.hex()}'); pown.append((i, j, t, w))
+        pev, _ = corr.run_lines(hp, plines, env=env)
+        by_doc = {}
+        for (i, j, t, w), p in zip(pown, pev):
+            by_doc.setdefault(j, []).append((t, w, p))
+        stats['sources'] += len(xs); stats['encodings_decoded'] += len(plines)
+        for j, items in by_doc.items():
+            lang = langs.get(lang_of[j])
+            if lang is None:
                 continue
-            ref = None
-            for t, w, p in grp:
-                res.add_eval(w.hex()[:2000])
-                if not p or not p.startswith('R 0 ;'):
-                    report(f'the WBXML produced under options {t} is refused by the parser: {(p or "")[:20]}', (xs[j][:300], w.hex()[:200]), exc)
+            norm = docmp.Norm(d, lang)
+            exc_sc = docmp.excuses_scoped(norm, docmp.doc_of_expat(src_runs[j])[2])
+            exc = set(exc_sc)
+            # acceptance may legitimately depend on the string-table option (literal names need the table)
+            # and on white-space preservation (typed content); it must not depend on version / anonymity
+            for (kw, st) in itertools.product([0, 1], [0, 1]):
+                sts = {hexout(impl[i]) is not None for i, (jj, t) in enumerate(owner) if jj == j and t[1] == kw and t[2] == st}
+                if len(sts) > 1:
+                    report('the document is accepted under some version/anonymity settings and refused under others', xs[j][:300], exc)
+            for keep in (0, 1):
+                grp = [(t, w, p) for t, w, p in items if t[1] == keep]
+                if not grp:
                     continue
-                ev = merged_events(p)
-                if t[3] == 1:
-                    stats['anonymous_headers_checked'] += 1
-                    xmlid = bytes.fromhex(lang['pub']['xml']) if lang['pub']['xml'] else None
-                    if w[1] != 1 or (xmlid and xmlid in w):
-                        report(f'anonymous document (options {t}) carries a public identifier', w.hex()[:120], exc)
-                if ref is None:
-                    ref = (t, ev)
-                else:
-                    stats['option_pairs_compared'] += 1
-                    if ev != ref[1]:
-                        k = next((q for q in range(min(len(ev), len(ref[1]))) if ev[q] != ref[1][q]), min(len(ev), len(ref[1])))
-                        report(f'options {ref[0]} and {t} decode to different documents at item {k}: {ref[1][k:k+1]} vs {ev[k:k+1]}', xs[j][:400], exc)
+                ref = None
+                for t, w, p in grp:
+                    res.add_eval(w.hex()[:2000])
+                    if not p or not p.startswith('R 0 ;'):
+                        report(f'the WBXML produced under options {t} is refused by the parser: {(p or "")[:20]}', (xs[j][:300], w.hex()[:200]), exc)
+                        continue
+                    ev = merged_events(p)
+                    if t[3] == 1:
+                        stats['anonymous_headers_checked'] += 1
+                        xmlid = bytes.fromhex(lang['pub']['xml']) if lang['pub']['xml'] else None
+                        if w[1] != 1 or (xmlid and xmlid in w and xmlid not in re.sub(rb'<!DOCTYPE[^>]*>', b'', xs[j])):
+                            report(f'anonymous document (options {t}) carries a public identifier', w.hex()[:120], exc)
+                    if ref is None:
+                        ref = (t, ev, w)
+                    else:
+                        stats['option_pairs_compared'] += 1
+                        if ev != ref[1] and embedded_only(norm, ref[1], ev) and same_xml(lang_of[j], ref[2], w):
+                            # interpretation note 2: embedded documents are compared as documents (their own
+                            # header follows the version / anonymity options)
+                            stats['embedded_compared_as_documents'] = stats.get('embedded_compared_as_documents', 0) + 1
+                        elif ev != ref[1]:
+                            k = next((q for q in range(min(len(ev), len(ref[1]))) if ev[q] != ref[1][q]), min(len(ev), len(ref[1])))
+                            st = []
+                            for e in ref[1][:k]:
+                                if e[0] == 'S':
+                                    st.append(docmp.local(e[1]))
+                                elif e[0] == 'E' and st:
+                                    st.pop()
+                            if k < len(ref[1]) and ref[1][k][0] == 'S':
+                                st.append(docmp.local(ref[1][k][1]))
+                            # an excuse counts only in the element the difference lies in
+                            report(f'options {ref[0]} and {t} decode to different documents at item {k}: {ref[1][k:k+1]} vs {ev[k:k+1]}', xs[j][:400],
+                                   docmp.applicable(exc_sc, st[-1] if st else None))
+        return [owner[i][0] for i in cd]
+
+    ddocs = enc_opts(xs0, not quick)
+    if corr_diff and not viol and quick:
+        # search (DESIGN 6.1): the conversion no longer behaves like the model but no sampled document showed
+        # an option dependence: the whole corpus and the differing documents under all 32 tuples
+        res.coverage['search'] = 'correspondence differed without oracle failure: whole corpus x 32 tuples'
+        enc_opts([xs0[j] for j in sorted(set(ddocs))] + docs, True)
+    xs = xs0
     # ---------- (b) decoder options
     wdocs = [w for _, w in wbgen.corpus_wbxml()]
     wsel = rng.sample(wdocs, 50 if quick else len(wdocs))
@@ -200,15 +251,14 @@ def run(res, args):
         if prop == 'C07':
             res.known.append(f'{kid}: {what}')
     res.coverage.update(stats)
-    res.coverage['traces_validated_against_impl'] = len(sl) + len(l2) - len(corr_diff)
+    res.coverage['traces_validated_against_impl'] = nsl[0] + len(l2) - len(corr_diff)
     res.coverage['rule'] = ('sources: corpus + table-synthesised XML x all 32 (quick: 12) encoder tuples, decoded with the language forced and compared pairwise within each keep-ws class; '
                             'corpus WBXML x {compact, canonical, indent widths} x keep-ws read back by Expat; UTF-16 / ISO-8859-1 transcodings of every source')
     res.samples = [l2[i][:120] for i in rng.sample(range(len(l2)), 3)]
-    for idx, rc, err in inc:
-        if idx < len(lines):
-            r, rc1, err1 = corr.isolate(hx2w, lines[idx], env=env)
-            if rc1 != 0 or r is None:
-                res.violation({'kind': 'sanitizer-or-crash', 'request': lines[idx][:4000], 'rc': rc1, 'stderr': err1[-2000:]}, f'crash-{idx}')
+    for n, (ln, rc, err) in enumerate(all_inc[:20]):
+        r, rc1, err1 = corr.isolate(hx2w, ln, env=env)
+        if rc1 != 0 or r is None:
+            res.violation({'kind': 'sanitizer-or-crash', 'request': ln[:4000], 'rc': rc1, 'stderr': err1[-2000:]}, f'crash-{n}')
     for n, (what, detail) in enumerate(viol[:4]):
         res.violation({'kind': 'option-dependence', 'what': what, 'detail': str(detail)[:3000]}, f'options-{n}')
     if corr_diff and not res.violations:
